@@ -352,6 +352,10 @@ impl<C: Collect> Collect for Tap<C> {
     }
 }
 
+fn rank_of_filter(f: &LevelFilter) -> u64 {
+    [LevelFilter::OFF, LevelFilter::ERROR, LevelFilter::WARN, LevelFilter::INFO, LevelFilter::DEBUG, LevelFilter::TRACE].iter().position(|x| x == f).unwrap() as u64
+}
+
 fn finish<C: Collect + Send + Sync + 'static>(c: C, wrap: &str, metas: &[&'static Metadata<'static>]) -> (Dispatch, Value) {
     // the summary the composed collector publishes (C08, whole-stack clause)
     let hint = hint_rank(c.max_level_hint());
@@ -566,6 +570,11 @@ fn child() {
         calls.retain(|c| c["cb"] != "register_callsite");
         o["obs"] = json!(calls);
         o["regs"] = json!(regs);
+        if op == "swap" {
+            // what the stack publishes now (this process has no other dispatcher: the global maximum is this stack's hint)
+            o["summary"] = json!({"hint": rank_of_filter(&LevelFilter::current()),
+                "cs": metas.iter().map(|m| json!({"m": meta_json(m), "cs": "sometimes"})).collect::<Vec<_>>()});
+        }
         match res {
             Ok(v) => {
                 if op == "new" {
